@@ -32,9 +32,9 @@ ASSUMPTIONS = ['real browsers are not driven: the HTML is decoded with html.pars
 REQUIRED_CLASSES = ['hostile_script_close', 'hostile_placeholder', 'colliding_names', 'extra_field_date', 'with_views', 'negative_total', 'json_summary_asserted']
 
 HOSTILE = ['</script>', '</SCRIPT >', '<!--', '<script>', 'x</script><script>alert(1)</script>', '"', "'", '\\', 'a\\"b', ' ', ' ', '/* DATA_PLACEHOLDER */',
-           '/* JS_PLACEHOLDER */', '/* CSS_PLACEHOLDER */', '{amount}', '{0}', 'naïve ☕', '&amp;', '<b>bold</b>', 'a|b', '100%', 'window.spendingData = 1;', '];', '\t', '__proto__', 'constructor', 'toString']
+           '/* JS_PLACEHOLDER */', '/* CSS_PLACEHOLDER */', '{amount}', '{0}', 'naïve ☕', '&amp;', '<b>bold</b>', 'a|b', '100%', 'window.spendingData = 1;', '];', '\t', '__proto__', 'constructor', 'toString', 'Cafe\u0301', 'Caf\u00e9', '\u212bngstrom \u2126', '\u1100\u1161', 'ﬁne']
 PLAIN = ['NETFLIX', 'Uber Eats', 'Whole Foods', 'Shell Oil', 'Rent', 'Paycheck', 'Vanguard', 'Savings Xfer']
-NAME_GROUPS = [['A B', 'A_B', "A' B", 'A B 2', 'A_B_2', 'A B_3'], ["O'Neil", 'ONeil', 'O"Neil', 'ONeil 2', "O'Neil_2"], ['X"Y', 'XY', "X'Y", 'XY_2', 'XY 2', 'XY_2_2'],
+NAME_GROUPS = [['Cafe\u0301', 'Caf\u00e9', 'CAFE\u0301'], ['A B', 'A_B', "A' B", 'A B 2', 'A_B_2', 'A B_3'], ["O'Neil", 'ONeil', 'O"Neil', 'ONeil 2', "O'Neil_2"], ['X"Y', 'XY', "X'Y", 'XY_2', 'XY 2', 'XY_2_2'],
                ['Cafe Z', 'Cafe_Z', 'Cafe Z 2', 'Cafe_Z_2_2', "Trader Joe's", 'Trader Joes', 'Trader Joes 2']]
 CURRENCIES = ['${amount}', '{amount} zl', '£{amount}', '€{amount}', '{amount} kr']
 SPECIAL = ['income', 'investment', 'transfer']
